@@ -546,3 +546,106 @@ func TestVerifC05Interest(t *testing.T) {
 		})
 	})
 }
+
+// C05.respawn — the narrow sequence behind one thorough-tier violation: a
+// node's outbound stream to a neighbour is reset again and again while the
+// connection stays up; every time the writer is respawned and greets with the
+// node's subscriptions, while the neighbour is still tearing the old inbound
+// stream down. After each reset and a quiet spell the neighbour must list the
+// node for exactly the topics it is subscribed to.
+func TestVerifC05Respawn(t *testing.T) {
+	vRun(t, "C05.respawn", vCount(500, 4000), func(c *vCase) {
+		c.Bubble(func() {
+			n := newVNet(c)
+			var nodes []*vNode
+			defer func() {
+				for _, x := range nodes {
+					x.cancel()
+				}
+				n.Close()
+				vSettle(0)
+			}()
+			for i := 0; i < 2; i++ {
+				router := []string{"gossipsub", "floodsub", "randomsub"}[c.Intn(3)]
+				nd, err := n.NewNode(fmt.Sprintf("n%d", i), router)
+				if err != nil {
+					panic(err)
+				}
+				nodes = append(nodes, nd)
+			}
+			a, b := nodes[0], nodes[1]
+			topics := []string{"a", "b", "c"}
+			subs := map[string]*Subscription{}
+			for _, tn := range topics {
+				if c.Chance(0.6) {
+					s, err := b.ps.Subscribe(tn)
+					if err != nil {
+						panic(err)
+					}
+					subs[tn] = s
+				}
+			}
+			n.Connect(a.ID(), b.ID())
+			vSettle(500 * time.Millisecond)
+			resetOut := func() bool {
+				for _, conn := range b.h.Host.Network().ConnsToPeer(a.ID()) {
+					for _, s := range conn.GetStreams() {
+						if s.Stat().Direction == network.DirOutbound && strings.Contains(string(s.Protocol()), "sub/") {
+							s.Reset()
+							return true
+						}
+					}
+				}
+				return false
+			}
+			resets, inWindow := 0, 0
+			for k, K := 0, c.Range(5, 25); k < K && !c.Violated(); k++ {
+				if c.Chance(0.3) {
+					// interest changes around the reset
+					tn := topics[c.Intn(len(topics))]
+					if s := subs[tn]; s != nil {
+						s.Cancel()
+						delete(subs, tn)
+					} else if s, err := b.ps.Subscribe(tn); err == nil {
+						subs[tn] = s
+					}
+					vSettle(time.Duration(c.Range(0, 3)) * time.Millisecond)
+				}
+				if !resetOut() {
+					vSettle(time.Second)
+					continue
+				}
+				resets++
+				inWindow++
+				// the library stops respawning a writer that died more than four times inside the back-off's ten-minute
+				// memory (by design: the neighbour then stays unheard until it reconnects); the monitor stays below that
+				if inWindow >= 3 || c.Chance(0.2) {
+					vSettle(11 * time.Minute)
+					inWindow = 0
+				} else {
+					vSettle(12 * time.Second)
+				}
+				for _, tn := range topics {
+					listed := false
+					for _, p := range a.ps.ListPeers(tn) {
+						if p == b.ID() {
+							listed = true
+						}
+					}
+					if listed != (subs[tn] != nil) {
+						c.Violatef(map[string]string{"kind": "respawn_interest_lost", "listed": fmt.Sprint(listed)},
+							"after reset %d of n1's outbound stream (routers %T / %T): n0.ListPeers(%s) lists n1 = %v, n1 subscribed = %v", resets, a.ps.rt, b.ps.rt, tn, listed, subs[tn] != nil)
+						return
+					}
+				}
+			}
+			c.Sig(fmt.Sprintf("%T%T", a.ps.rt, b.ps.rt), len(subs), resets/5)
+			c.Nontrivial(resets >= 3)
+			c.Count("outbound_resets", resets)
+			c.State(len(subs), resets/5)
+			if c.Idx < 2 {
+				c.Sample(map[string]any{"routers": fmt.Sprintf("%T / %T", a.ps.rt, b.ps.rt), "subscribed_topics": len(subs), "resets": resets})
+			}
+		})
+	})
+}
